@@ -32,7 +32,7 @@ def map_labels(sc):
     return labs
 
 def describe(sc):
-    return {k: sc[k] for k in ('id', 'layers', 'buffer', 'n', 'read', 'action', 'drain', 'settle', 'received', 'hung', 'panics', 'out_closed_seen')}
+    return {k: sc[k] for k in ('id', 'layers', 'buffer', 'n', 'read', 'action', 'drain', 'settle', 'closers', 'received', 'hung', 'panics', 'out_closed_seen')}
 
 def run_into(ctx, res, seed_offset=0):
     pid, tier, seed = ctx['pid'], ctx['tier'], ctx['seed'] + seed_offset
@@ -69,7 +69,8 @@ def run_into(ctx, res, seed_offset=0):
                 res.violations.append(dict(signature='C07/decorator-order', what='a decorator pump handed on messages in another order than it took them, or twice', case=dict(describe(sc), took=d['recv'], handed_on=d['sent'])))
         if len(set(sc['received'])) != len(sc['received']):
             res.violations.append(dict(signature='C07/decorator-order', what='a message was received twice through the decorator although every delivery was acked', case=describe(sc)))
-        if sc['layers'] == 1:
+        res.count('decorator closers=%d' % sc.get('closers', 1))
+        if sc['layers'] == 1 and sc.get('closers', 1) == 1:
             labs = map_labels(sc)
             close_ret = any(e['p'] == 'api.close.ret' for e in sc['events'][:next((i for i, e in enumerate(sc['events']) if e['p'] == 'api.verdict'), len(sc['events']))])
             upto = next((i for i, e in enumerate(sc['events']) if e['p'] == 'api.verdict'), len(sc['events']))
